@@ -96,6 +96,11 @@ def gen_machine(rng, allow_any=True):
         anyg = dict(events=evs, tgt=z)
     for i, t in enumerate(trans):
         t["i"] = i
+    # an event without transitions (only declarable as `e = Event(name=…)`)
+    dangling = []
+    if rng.random() < 0.12:
+        dangling.append(nev)
+        nev += 1
     conv = []
     for e in range(nev):
         for ph in ("before", "on", "after"):
@@ -106,7 +111,7 @@ def gen_machine(rng, allow_any=True):
             conv.append((f"on_enter_s{s['k']}", cb()))
         if rng.random() < 0.08:
             conv.append((f"on_exit_s{s['k']}", cb()))
-    return dict(states=states, trans=trans, nev=nev, anyg=anyg, conv=conv, ncb=cbc[0])
+    return dict(states=states, trans=trans, nev=nev, anyg=anyg, conv=conv, ncb=cbc[0], dangling=dangling)
 
 
 def machine_text(am):
@@ -117,7 +122,7 @@ def machine_text(am):
         out.append("T %d->%d ev=%s int=%d any=%s %s" % (
             t["src"], t["tgt"], t["events"], int(t["internal"]), t["any"],
             " ".join(f"{g}={t[g]}" for g in GROUPS if t[g])))
-    out.append(f"conv={am['conv']}")
+    out.append(f"conv={am['conv']} dangling={am.get('dangling', [])}")
     return "\n".join(out)
 
 
@@ -153,6 +158,7 @@ def render(am, rng, allow_any=True, allow_split=True, force=None):
     owner = {}            # transition index -> owning event (the attribute whose statement creates it)
     group = {}            # event -> list of transition indices created by its statement
     alias = {}            # event -> event whose list it shares
+    extends = {}          # event -> event whose list it extends: `e = o | more`
     phmode = set()
     kwev = {t["i"]: [] for t in trans}   # events carried in event=
     any_evs = am["anyg"]["events"] if am["anyg"] else []
@@ -180,7 +186,12 @@ def render(am, rng, allow_any=True, allow_split=True, force=None):
                     alias[e] = o
                     continue
             free = [i for i in mine if i not in owner]
-            if rng.random() < 0.25 and len(free) > 1:
+            named = owners - {None}
+            if (free and len(named) == 1 and rng.random() < 0.6):
+                o = next(iter(named))
+                if set(group[o]) <= set(mine) and o not in alias and o not in any_evs:
+                    extends[e] = o
+            if e not in extends and rng.random() < 0.25 and len(free) > 1:
                 free = rng.sample(free, rng.randint(1, len(free) - 1))
             if free:
                 group[e] = sorted(free)
@@ -188,7 +199,8 @@ def render(am, rng, allow_any=True, allow_split=True, force=None):
                     owner[i] = e
             for i in mine:
                 if owner.get(i) != e:
-                    kwev[i].append(e)
+                    if not (e in extends and owner.get(i) == extends[e]):
+                        kwev[i].append(e)
                 elif rng.random() < 0.05:
                     kwev[i].append(e)        # redundant: named by the attribute and by event=
         else:
@@ -209,6 +221,8 @@ def render(am, rng, allow_any=True, allow_split=True, force=None):
             where[i] = s
 
     def sbefore(x, y):
+        if y["ev"] is not None and extends.get(y["ev"]) == x["ev"] and x["ev"] is not None:
+            return True
         return any(_conflict(trans[i], trans[j]) and i < j for i in x["idxs"] for j in y["idxs"])
 
     sorder = _linear_extension(rng, stmts, sbefore)
@@ -333,11 +347,16 @@ def render(am, rng, allow_any=True, allow_split=True, force=None):
             continue
         common_on = set(ts[0]["on"]).intersection(*[set(t["on"]) for t in ts[1:]]) if ts else set()
         r = rng.random()
-        if common_on and r < force.get("p_deco", 0.45):
+        if common_on and r < force.get("p_deco", 0.45) and e not in extends and e not in extends.values():
             cbid = rng.choice(sorted(common_on))
             body.append(("deco", e, cbid, calls_for(s["idxs"], drop_on=cbid)))
             tags.add("decorator_event")
-        elif r < 0.7 or e in alias.values():
+        elif e in extends:
+            ex = calls_for(s["idxs"])
+            ref = ("ref", extends[e])
+            body.append(("assign", e, ("or", ref, ex) if rng.random() < 0.6 else ("or", ex, ref)))
+            tags.add("extends_list")
+        elif r < 0.7 or e in alias.values() or e in extends.values():
             body.append(("assign", e, calls_for(s["idxs"])))
             tags.add("assign")
         else:
@@ -360,6 +379,9 @@ def render(am, rng, allow_any=True, allow_split=True, force=None):
                 break
         body.insert(rng.randint(0, first), ("ph", e))
         tags.add("placeholder_event")
+    for e in am.get("dangling", []):
+        body.insert(rng.randint(0, len(body)), ("ph", e))
+        tags.add("event_without_transitions")
     # --- states: in order, grouped in runs, placed at the top or lazily before first use
     n = len(am["states"])
     runs = []
